@@ -502,6 +502,11 @@ fn main() {
             continue;
         }
         let d = build(&def);
+        if d.max_size() > (1usize << 24) {
+            // published as MAX_SIZE: no record type of that capacity can exist
+            println!("cargo:warning=KGEN-ABSURD-CAPACITY definition {} max_size {}", def.name, d.max_size());
+            panic!("KGEN-ABSURD-CAPACITY definition {} max_size {}", def.name, d.max_size());
+        }
         let full = |extra: Vec<Box<dyn FragmentGenerator>>| GeneratorConfig::default_with_custom_generators(extra);
         // module used by the harnesses: all fragments on
         let code = generate(&d, &full(vec![Box::new(CloneImplGenerator), Box::new(SerdeImplGenerator)]));
